@@ -6,6 +6,7 @@ From Coq Require Import ZArith List.
 From PV Require Import Lib.Py.
 From PV Require Import Model.Graph Model.ReadTrace.
 From PV Require Import Proofs.C01Base Proofs.C01Inv Proofs.C01 Proofs.C04Trace Proofs.C04Graph.
+From PV Require Import Proofs.C01Weak Proofs.C04Weak.
 From PV Require Import Model.Syntax Model.Emit Model.Scan Proofs.C04.
 From PV Require Gen.excelformula.
 Import ListNotations.
@@ -102,6 +103,19 @@ Theorem C04_influence_machine : forall W sem, wf W -> sem_nonblank W sem -> stor
     = snd (step W sem s (Evaluate c)).
 Proof. exact influence_machine. Qed.
 Print Assumptions C04_influence_machine.
+
+(* the same under the weak non-blank condition of Props/C01.v, i.e. for
+   workbooks with whole-column references (C01_alias_weak), which do not meet
+   sem_nonblank (C01_alias_not_strong); Proofs/C04Weak.v, by transfer *)
+Theorem C04_influence_machine_weak : forall W sem, wf W -> sem_nonblank_weak W sem -> stored_ok W sem ->
+  inputs_exact W (wb_inp0 W) ->
+  forall h, ok_history W sem (ok_op W) (init W) h ->
+  let s := fst (Graph.run W sem (init W) h) in
+  forall a v c, ok_op W s (SetValue a v) -> (c < wb_n W)%nat -> ~ ancestor W a c ->
+    snd (step W sem (fst (step W sem s (SetValue a v))) (Evaluate c))
+    = snd (step W sem s (Evaluate c)).
+Proof. exact influence_machine_weak. Qed.
+Print Assumptions C04_influence_machine_weak.
 
 (* ancestor = the node itself or a strict ancestor in the sense of C01 *)
 Theorem C04_ancestor_anc : forall W a c, ancestor W a c <-> a = c \/ anc W a c.
